@@ -29,6 +29,7 @@ META = {
     "not_decided": ["numeric equality of the assembled hash with the reference on every input", "float rounding at counts >= 2^24",
                     "correctness of core::slice::select_nth_unstable"],
 }
+TECHNIQUE = 'table value rules against the TLSH reference tables, MIR path rules for the window/salt pairing and checksum recurrence, 512-row decision table of the rejection precedence, SIMD comparison-core matching'
 
 SALTS = {2: (0, 1, 2), 3: (0, 1, 3), 5: (0, 2, 3), 7: (0, 2, 4), 11: (0, 1, 4), 13: (0, 3, 4)}
 
